@@ -70,12 +70,16 @@ def gen_case(rng):
                              allow_degenerate=False, tie_heavy=rng.random() < 0.6, frac_choices=(3, 3, 6, 1),
                              first_line_max=None)
     ts = sorted(set(m.instant for s in srcs for m in s.msgs))
-    form = rng.choice(("both", "both", "both", "only_a", "only_b", "a_eq_b"))
+    form = rng.choice(("both",) * 9 + ("only_a",) * 3 + ("only_b",) * 3 + ("a_eq_b",) * 3 + ("a_after_b",))
     a = place(rng, ts) if form != "only_b" else None
     b = place(rng, ts) if form != "only_a" else None
     if form == "a_eq_b":
         b = a
-    if a is not None and b is not None and a > b:
+    if form == "a_after_b":
+        # an empty window: no instant satisfies A <= t <= B, nothing may be printed (s4 refuses the pair with an error)
+        if a <= b:
+            a, b = b + 1_000_000, a
+    elif a is not None and b is not None and a > b:
         a, b = b, a
     opts = ["--color", "never", "--blocksz", str(bsz), "--tz-offset", "+00:00"]
     if a is not None:
@@ -158,7 +162,7 @@ def run_case(seed, i, tier):
         cr.arrival_hashes.append(tr.arrival_hash())
         cr.nontrivial_keys.append(core.derive(0, merge.scenario_for(srcs, opts).digest()))
         vs = mergecheck.evaluate(res, expected, check_protocol=False)
-        if not vs and sel == 0 and res.rc != 0:
+        if not vs and sel == 0 and res.rc != 0 and form != "a_after_b":
             vs.append(("empty_selection_is_an_error", "exit status %s with an empty selection; stderr %r" % (res.rc, res.stderr[-200:])))
         for (cls, detail) in vs:
             rp = {"kind": "c03", "sources": mergecheck.sources_to_json(srcs), "opts": opts, "a": a, "b": b,
